@@ -40,6 +40,7 @@ EVRPC_GENERATE(NeverReply, msg, kill)
 extern "C" int __lsan_do_recoverable_leak_check(void);
 #define K_UNSTARTED_LEAK "C43/unstarted-request-leaks-http-request"
 #define K_GEN_LEAK "C43/generated-unmarshal-leaks-failed-array-element"
+#define K_ZERO_STRUCT "ubsan:null-pointer-passed-as-argument-which-is@buffer.c"   /* evtag_unmarshal() of a zero-length item: evbuffer_add(dst, NULL, 0) */
 
 namespace {
 // ---------------------------------------------------------------- value mirror of the generated types
@@ -97,9 +98,20 @@ std::string marshal_msg(const MsgV &v) { struct msg *m = msg_new(); fill_msg(m, 
   std::string out(evbuffer_get_length(b), 0); evbuffer_copyout(b, &out[0], out.size()); evbuffer_free(b); msg_free(m); return out; }
 bool decode_kill(const std::string &body, KillV *out) { struct kill *k = kill_new(); struct evbuffer *b = evbuffer_new(); evbuffer_add(b, body.data(), body.size());
   bool ok = kill_unmarshal(k, b) == 0; if (ok) *out = read_kill(k); evbuffer_free(b); kill_free(k); return ok; }
+// Does the body carry a struct-valued element (attack, run) with a zero-length payload?  evtag_unmarshal() then calls
+// evbuffer_add(dst, NULL, 0) -> memcpy(.., NULL, 0) (known finding K_ZERO_STRUCT); such a body never unmarshals.
+bool zero_len_struct(const std::string &body) {
+  struct evbuffer *b = evbuffer_new(); evbuffer_add(b, body.data(), body.size()); bool hit = false;
+  while (evbuffer_get_length(b) > 0) { ev_uint32_t tag, len;
+    if (evtag_peek(b, &tag) == -1 || evtag_payload_length(b, &len) == -1) break;
+    if ((tag == MSG_ATTACK || tag == MSG_RUN) && len == 0) { hit = true; break; }
+    if (evtag_consume(b) == -1) break; }
+  evbuffer_free(b); return hit;
+}
 // Would the generated msg_unmarshal() allocate a run element and then fail inside it?  (It then returns without freeing the
 // element: known finding K_GEN_LEAK.)  Mirrors msg_unmarshal's top-level walk with leak-free stand-alone decoders.
 bool gen_leak_possible(const std::string &body) {
+  if (zero_len_struct(body)) return false;
   struct evbuffer *b = evbuffer_new(); evbuffer_add(b, body.data(), body.size()); bool leak = false, from = false, to = false, attack = false;
   while (evbuffer_get_length(b) > 0) { ev_uint32_t tag;
     if (evtag_peek(b, &tag) == -1) break;
@@ -110,7 +122,7 @@ bool gen_leak_possible(const std::string &body) {
     else break; }
   evbuffer_free(b); return leak;
 }
-bool decode_msg(const std::string &body, MsgV *out) { if (gen_leak_possible(body)) return false; struct msg *m = msg_new(); struct evbuffer *b = evbuffer_new(); evbuffer_add(b, body.data(), body.size());
+bool decode_msg(const std::string &body, MsgV *out) { if (zero_len_struct(body) || gen_leak_possible(body)) return false; struct msg *m = msg_new(); struct evbuffer *b = evbuffer_new(); evbuffer_add(b, body.data(), body.size());
   bool ok = body.size() > 0 && msg_unmarshal(m, b) == 0; if (ok) *out = read_msg(m); evbuffer_free(b); msg_free(m); return ok; }
 int id_of(const std::string &from) { if (from.size() < 2 || from[0] != 'q') return -1; int v = 0; size_t i = 1; for (; i < from.size() && from[i] >= '0' && from[i] <= '9'; i++) v = v * 10 + (from[i] - '0'); if (i == 1 || i >= from.size() || from[i] != ';') return -1; return v; }
 std::string show(const KillV &k) { return "{w=" + (k.has_weapon ? esc(k.weapon, 30) : "-") + " a=" + (k.has_action ? esc(k.action, 30) : "-") + " n=" + std::to_string(k.how.size()) + "}"; }
@@ -342,6 +354,7 @@ bool relay_step(World &w) {
         if (dir == 1) c.cur_non200 = head.compare(0, 12, "HTTP/1.1 200") != 0;
         if (rewrite) { std::string nb = mutate_body(w, c, body, dir);
           TR("  relay: conn %zu rewrites %s #%d (q%d): %zu -> %zu bytes", ci, dir ? "response" : "request", no, c.cur_id, body.size(), nb.size());
+          if (dir == 0 && zero_len_struct(nb)) { if (verif_known(K_ZERO_STRUCT)) { verif_known_skipped(K_ZERO_STRUCT); nb.clear(); } else TR("  relay: this body has a zero-length struct element"); }
           if (dir == 0 && gen_leak_possible(nb)) { if (verif_known(K_GEN_LEAK)) { verif_known_skipped(K_GEN_LEAK); nb.clear(); } else { w.gen_leak_forwarded = true; TR("  relay: this body fails inside a run element"); } }
           if (dir == 0) { Rec *r = c.cur_id >= 0 ? w.recs[c.cur_id] : nullptr; MsgV v; bool ok = decode_msg(nb, &v);
             int kind = head.find("/.rpc.NeverReply") != std::string::npos ? 1 : 0;
